@@ -583,6 +583,47 @@ def oracle_session(var, v):
                    % (body.hex(), want, [(c[0], c[1].get('nlri')) for c in calls]))
 
 
+def cross_session_cases(ctx):
+    """the decode mode of a session (2- or 4-octet AS numbers) is the one negotiated in THAT session: real
+    sessions on the stub reactor, one after the other on the same peering, the peer advertising or not
+    advertising the 4-octet-AS capability; in each session a reference-encoded UPDATE in the mode both OPENs
+    of that session allow must reach the handler with exactly the encoded AS_PATH / AGGREGATOR.
+    (the order none -> 4-octet is the C05 finding C05-asn4-without-local-capability and is not run here)"""
+    import session
+    import explore
+    from props import session_common as sc
+    M = sc.ALL_MSGS
+    open_as4 = M['open_ok']
+    open_plain = explore.frame(1, explore.open_body(asn=65002, as4=None))
+    out = []
+    for seq in (('as4', 'as4'), ('as4', 'plain'), ('plain', 'plain'), ('as4', 'plain', 'as4'), ('as4', 'plain', 'plain')):
+        d = session.Driver()
+        d.apply(('boot',))
+        for n, kind in enumerate(seq):
+            asn4 = kind == 'as4'
+            v = {'withdraw': [], 'nlri': [(0, 0x0A010000 + n * 256, 24)],
+                 'attrs': [(1, ('num', 0)), (2, ('path', [(2, [64512 + n, 65002, 4200000000 if asn4 else 23456])])),
+                           (3, ('num', 0x0A000002)), (7, ('pair', 65002, 0x0A000002))]}
+            var = {'asn4': asn4, 'addpath': False, 'ext': [], 'fill_w': [], 'fill_n': []}
+            body = ref_encode(var, v)
+            evs = [('connok', n), ('data', n, open_as4 if asn4 else open_plain), ('data', n, M['keepalive'])]
+            for e in evs:
+                d.apply(e)
+            k0 = len(d.handler.calls)
+            d.apply(('data', n, explore.frame(2, body)))
+            got = [c for c in d.handler.calls[k0:] if c[0] in ('update_received', 'on_update_error')]
+            want_path = [(2, v['attrs'][1][1][1][0][1])]
+            ok = (len(got) == 1 and got[0][0] == 'update_received' and
+                  [tuple(x) if not isinstance(x, tuple) else x for x in got[0][1]['attr'].get(2, [])] ==
+                  [(t, list(a)) for t, a in want_path])
+            out.append({'sessions': list(seq[:n + 1]), 'state': d.state()[0], 'ok': ok, 'body': body.hex(),
+                        'got': repr(got)[:600], 'want_as_path': want_path})
+            # end the session: the peer resets, the restart timer expires
+            d.apply(('lost', n))
+            d.apply(('fire', 'TIdleHold'))
+    return out
+
+
 # ------------------------------------------------------------------------------------------
 # correspondence machinery
 # ------------------------------------------------------------------------------------------
@@ -689,6 +730,15 @@ def run(ctx):
                 stats['encoder_selfcheck'] += 1
                 cases.append(('SB (ref_corrupt %s %s %s)' % (coq_var(var), coq_corruption(k), coq_value(v)), B(body),
                               ['ref_corrupt', var, list(k), v], 'spec/RefUpdate.v and its Python transcription'))
+    # ---- the decode mode across consecutive real sessions ----
+    stats['cross_session'] = 0
+    for c in cross_session_cases(ctx):
+        stats['cross_session'] += 1
+        if not c['ok']:
+            viol.append({'what': 'session %d of %r (state %d): the reference UPDATE %s encoded in the mode this session '
+                                 'negotiated should give AS_PATH %r; the handler got %s'
+                                 % (len(c['sessions']), c['sessions'], c['state'], c['body'], c['want_as_path'], c['got']),
+                         'input': {'cross_session': c['sessions']}, 'known': None})
     # ---- add-path through the session layer (BGP._update_received) ----
     for var, v in addpath_session_cases(ctx):
         stats['session_addpath'] += 1
